@@ -33,7 +33,7 @@ def budget(tier):
 
 def floor(tier):
     return dict(min_conclusive=400 if tier == "quick" else 6000, min_nontrivial=300 if tier == "quick" else 4000,
-                classes=["finite", "rejected", "domain", "extreme-kinematics"] + PROCS + cards.SCHEMES, min_compared=400)  # fmt: skip
+                classes=["finite", "rejected", "domain", "extreme-kinematics", "session"] + PROCS + cards.SCHEMES, min_compared=400)  # fmt: skip
 
 
 def cases(tier, rng):
@@ -75,6 +75,13 @@ def cases(tier, rng):
                 out.append(dict(id=f"c16-d{n}", mode="domain", label=label, bad=bad, kind=kind, heavy=cards.pick(rng, ["total", "light", "charm"]), theory=th,
                                 obs=dict(prDIS=proc, ProjectileDIS=cards.pick(rng, cards.PROJECTILES)), point=dict(x=0.1, Q2=20.0, y=float(cards.pick(rng, [0.5, 0.13, 1.0]))), timeout=300))  # fmt: skip
                 n += 1
+    # long sessions: one process serves a card with many distinct (Q2, m) points of a massive observable and then ordinary requests of
+    # other kinds - state that grows with every point served (a shared list, a table that fills up) only shows after dozens of points
+    for k in range(2 if tier == "quick" else 24):
+        sch = cards.pick(rng, ["FFNS", "FONLL-FFNS", "FFNS"])
+        out.append(dict(id=f"c16-s{k}", mode="session", kind=cards.pick(rng, ["F2", "FL"]), heavy=cards.pick(rng, ["charm", "total"]), theory=dict(PTO=1, FNS=sch, NfFF=3, TMC=0), obs=dict(prDIS=cards.pick(rng, ["NC", "EM"]), ProjectileDIS="electron"),
+                        point=dict(x=0.1, Q2=10.0, y=0.5), q2s=[float(q) for q in np.exp(rng.uniform(np.log(4.0), np.log(2e4), 72))], xs=[float(x) for x in rng.uniform(0.01, 0.6, 72)], timeout=CASE_TIMEOUT))  # fmt: skip
+
     return out
 
 
@@ -88,11 +95,44 @@ def classify_exception(e):
         line = (fr.line or linecache.getline(fr.filename, fr.lineno)).strip()
         where = f"{fr.filename.split('/')[-1]}:{fr.name}"
     msg = str(e)
-    explicit = line.startswith("raise ") and len(msg.strip()) >= 8 and not isinstance(e, (KeyError, IndexError, AttributeError, TypeError, ZeroDivisionError, ImportError))
+    # ... raised by the package itself or by one of the physics libraries it delegates to (which do state their limits: LeProHQ's "High
+    # virtuality limit ... is not known"); a complaint of a general-purpose library about the arguments it was handed (scipy.quad about its
+    # break points, numpy about bins) says nothing about the request and is an internal failure
+    own = fr is not None and any(t in fr.filename for t in ("/yadism/", "/LeProHQ/", "/adani/", "/eko/", "/ekore/"))
+    explicit = own and line.startswith("raise ") and len(msg.strip()) >= 8 and not isinstance(e, (KeyError, IndexError, AttributeError, TypeError, ZeroDivisionError, ImportError))
     return ("rejected" if explicit else "internal"), f"{type(e).__name__}@{where}", f"{type(e).__name__}: {msg[:160]} [{where}: {line[:80]}]"
 
 
+def run_session(case):
+    th = cards.theory(**case["theory"])
+    xg = cards.grid(5, 4, x_min=1e-3)
+    name = f"{case['kind']}_{case['heavy']}"
+    steps = [(name, th, dict(case["obs"]), [dict(x=x, Q2=q) for x, q in zip(case["xs"], case["q2s"])])]
+    steps += [("F2_total", cards.theory(PTO=2, FNS="ZM-VFNS"), dict(prDIS="NC", ProjectileDIS="electron"), [dict(x=0.2, Q2=30.0)]),
+              ("FL_light", cards.theory(PTO=1, FNS="ZM-VFNS", TMC=1), dict(prDIS="EM", ProjectileDIS="electron"), [dict(x=0.3, Q2=12.0)]),
+              ("XSHERANC_total", cards.theory(PTO=1, FNS="FONLL-FFN0", NfFF=4), dict(prDIS="NC", ProjectileDIS="positron"), [dict(x=0.05, Q2=90.0, y=0.4)]),
+              ("F3_charm", cards.theory(PTO=1, FNS="FFNS", NfFF=3), dict(prDIS="CC", ProjectileDIS="neutrino"), [dict(x=0.15, Q2=25.0)])]  # fmt: skip
+    viol, nontrivial = [], []
+    served = 0
+    for k, (nm, th_, ob_, pts) in enumerate(steps):
+        try:
+            out = run.run(th_, cards.observables({nm: pts}, xgrid=xg, deg=2, **ob_))
+            finite = all(np.all(np.isfinite(np.asarray(v[0], dtype=float))) for r in out[nm] for v in r.orders.values())
+            served += len(pts)
+            if not finite:
+                viol.append(dict(sig=f"session-nonfinite|step{min(k,1)}", what=f"long session, request {k} ({nm}, {th_['FNS']}): non-finite entries after {served} points served in this process"))
+            else:
+                nontrivial.append(f"session|{case['theory']['FNS']}|{case['kind']}|{case['heavy']}|step{k}")
+        except Exception as e:  # noqa: BLE001
+            outcome, sig, text = classify_exception(e)
+            viol.append(dict(sig=f"session-{'rejected' if outcome == 'rejected' else 'crash'}|{sig}", what=f"long session, request {k} ({nm}, {th_['FNS']}, {len(pts)} point(s)) after {served} points served in this process: a supported request ends in {text}"))
+            break
+    return dict(violations=viol, compared=len(steps), nontrivial=nontrivial, classes=["session"], sample=dict(session=name, scheme=case["theory"]["FNS"], distinct_Q2=len(set(case["q2s"])), requests=len(steps), points_served=served))
+
+
 def run_case(case):
+    if case["mode"] == "session":
+        return run_session(case)
     th = cards.theory(**case["theory"])
     name = f"{case['kind']}_{case['heavy']}"
     if case.get("bare") and case["heavy"] == "total":
